@@ -488,7 +488,45 @@ func ruleTB4() Rule {
 				n := 0
 				f.OwnNodes(func(x ast.Node) bool {
 					call, ok := x.(*ast.CallExpr)
-					if !ok || calleeName(info, call) != "strings.IndexAny" || len(call.Args) != 2 {
+					if !ok || len(call.Args) != 2 {
+						return true
+					}
+					cn := calleeName(info, call)
+					if cn != "strings.IndexAny" {
+						// any other search of a segment for a constant character set
+						// (a fast path deciding that nothing needs escaping) must look
+						// for at least the special set
+						switch cn {
+						case "strings.ContainsAny", "strings.LastIndexAny", "strings.ContainsRune", "strings.IndexByte", "strings.IndexRune", "strings.Contains", "strings.Index":
+						default:
+							return true
+						}
+						var set string
+						if s, ok := constStr(info, call.Args[1]); ok {
+							set = s
+						} else if tv, ok := info.Types[call.Args[1]]; ok && tv.Value != nil && tv.Value.Kind() == constant.Int {
+							if v, exact := constant.Int64Val(tv.Value); exact {
+								set = string(rune(v))
+							}
+						} else {
+							return true
+						}
+						got := map[rune]bool{}
+						for _, r := range set {
+							got[r] = true
+						}
+						missing := map[rune]bool{}
+						for r := range want {
+							if !got[r] {
+								missing[r] = true
+							}
+						}
+						key := f.Name + "|pre-test-set"
+						if len(missing) == 0 {
+							rr.OK(f, key, call.Pos(), "superset", "searches for "+runeSetString(got))
+						} else {
+							rr.Bad(f, key, call.Pos(), fmt.Sprintf("a segment is searched for {%s} only; {%s} have pattern meaning too, so a quoted segment containing only those bypasses the escape", runeSetString(got), runeSetString(missing)))
+						}
 						return true
 					}
 					n++
